@@ -247,4 +247,6 @@ def run(ck, tier):
     ck.assume('Deferred semantics (fires once) are Twisted\'s; behaviour with more than 65535 outstanding requests is not decided')
     from .. import ownership as _own
     ck.guard(_own.rule_instance_owned, ck, cx, 'R9', _own.MANAGERS[1:], 'pending deferreds of one connection are visible to (and consumed by) another connection with the same transaction ids', 2)
+    from .. import ownership as _own3
+    ck.guard(_own3.rule_instance_owned, ck, cx, 'R10', _own3.TWISTED_CLIENTS, 'the receive buffer and the pending-request table of one connection are used by every other connection of the process (a fragment left by one shifts the replies of all)', 3, None, ('framer', 'transaction'))
     return cx.idx
